@@ -265,7 +265,30 @@ func (w *vWriteRun) pushBlock(ext []int64, dropped int) bool {
 	}
 	w.blockNo++
 	sent := append([]int64(nil), ext...) // the block gets its own copy: the expectation must not follow what the code does to the list
+	var stopAsk chan struct{}
+	if (dropped > 0 || len(ext) > 0) && w.blockNo%2 == 0 {
+		// another thread of the server asks for the writing state all the while (a client reading the comment, a status request):
+		// that takes the writing-state lock again and again, and must not cost the block its lines in the side files
+		stopAsk = make(chan struct{})
+		asked := make(chan struct{})
+		go func() {
+			defer close(asked)
+			for {
+				select {
+				case <-stopAsk:
+					return
+				default:
+					f.ds.ComputeWritingState()
+				}
+			}
+		}()
+		defer func() { <-asked }()
+		c.Cov("blocks_processed_while_the_state_is_being_read", 1)
+	}
 	recs, err := f.push(blen, sent, dropped)
+	if stopAsk != nil {
+		close(stopAsk)
+	}
 
 	if err != nil {
 		c.Violate("c06:process-error", "ProcessSegments error: %v (history %v)", err, w.hist)
